@@ -551,6 +551,9 @@ class _Emitter(object):
                     self.marker()
             elif k == "op":
                 self.w(n["s"])
+            elif k == "ref":
+                self.features.add("ref-in-math")
+                self.ref(n)
             elif k in ("sup", "sub", "grp"):
                 self.features.add("math-group")
                 self.w({"sup": "^{", "sub": "_{", "grp": "{"}[k])
@@ -970,7 +973,7 @@ def render(doc):
 # AST utilities
 # ----------------------------------------------------------------------
 INLINE_KINDS = ("w", "cmd", "decl", "bgrp", "mbox", "footnote", "math", "verb", "label", "ref", "cite")
-_INLINE_CONTAINERS = ("cmd", "decl", "bgrp", "mbox", "footnote")
+_INLINE_CONTAINERS = ("cmd", "decl", "bgrp", "mbox", "footnote", "math")
 
 
 def _walk_inlines(items, fn):
@@ -1080,6 +1083,9 @@ def documents(features=ALL_FEATURES, exclude=(), max_items=14, classes=("article
             if q and (noq or (depth > 0 and "math-group-charsub" in X)):
                 q = None
             out.append({"k": "w", "q": q})
+            if depth == 0 and "refs" in F and draw(st.integers(0, 7)) == 0:
+                # a reference written inside the formula
+                out.append({"k": "ref", "n": draw(st.integers(0, 40)), "page": False})
             if depth < 2 and draw(st.integers(0, 3)) == 0:
                 kind = draw(st.sampled_from(["sup", "sub", "grp", "frac"]))
                 if kind == "frac":
@@ -1385,7 +1391,7 @@ def documents(features=ALL_FEATURES, exclude=(), max_items=14, classes=("article
 
 
 BIBKEYS = ["ka", "kb", "kc", "kd"]
-LABEL_STYLES = ["l%d", "sec:l%d", "l %d", "l%d", "l-%d", "l.%d", "my l%d x"]
+LABEL_STYLES = ["l%d", "sec:l%d", "l %d", "l_%d", "l-%d", "l.%d", "my l%d x", "l%d", "eq:first_l%d"]
 
 
 def _iter_blocks(items):
